@@ -3408,16 +3408,8 @@ func (w *World) validatedLookups() map[string]bool {
 	out := map[string]bool{}
 	for _, fn := range parsePhaseFuncs(w) {
 		for _, t := range membershipTests(fn) {
-			reports := false
-			for _, bb := range fn.Blocks {
-				if edgeDominates(t.branch, 1-t.presentSucc, bb) {
-					for _, i2 := range bb.Instrs {
-						if isAddSyntaxError(i2) {
-							reports = true
-						}
-					}
-				}
-			}
+			// the miss edge records a diagnostic, or returns the complaint that every caller records when it is not empty
+			reports := edgeReachesDiag(t.branch, 1-t.presentSucc)
 			if reports {
 				for _, kp := range w.keyPathsOf(fn, t.lookup.Index) {
 					out[normMapDesc(t.lookup.X)+"|"+kp] = true
